@@ -34,3 +34,15 @@ Definition corr (b0 b b2 : bytes) : N :=
 Fixpoint bad_from (i : nat) (l : list N) : list nat :=
   match l with [] => [] | x :: r => if x =? 0 then bad_from (S i) r else i :: bad_from (S i) r end.
 Definition bad_idx (l : list N) : list nat := bad_from O l.
+
+(* Simulationarchive snapshot k >= 1: b0 = library save of a fresh simulation, s0 = snapshot 0 (full stream),
+   dl = the delta blob (fields, END, trailer; no 64-byte header), r = library save(restored snapshot k).
+   Coq reader(snapshot 0) then Coq reader(delta) then Coq writer must equal r (pointer members masked);
+   a size-0 array field in the delta must make the array vanish. *)
+Definition delta_corr (b0 s0 dl r : bytes) : N :=
+  match dec b0, dec s0, dec_fields (S (List.length dl)) hdr_id end_id dl, dec r with
+  | Some (_ :: f0, _), Some (_ :: fs0, _), Some (dfs, _), Some (_ :: fr, _) =>
+      let m := mem_of (mem_of (mem_of empty_mem f0) fs0) dfs in
+      if fields_eqb (mask_fields recspecs (gen_view m false)) (mask_fields recspecs fr) then 0 else 1
+  | _, _, _, _ => 8
+  end.
